@@ -10,6 +10,7 @@
 package main
 
 import (
+	"encoding/binary"
 	"fmt"
 	"math/rand/v2"
 	"reflect"
@@ -994,6 +995,42 @@ func (t *tester) v2ForgedParentAfterInBlockRevision(cs consensus.State, orig typ
 	}
 }
 
+// v1WindowID: a v1 storage proof is judged against the block at WindowStart-1, whose ID travels in the supplement
+// (V1StorageProofSupplement.WindowID). A chain index is accepted as an ancestor only if it is one: the supplement of
+// an accepted block with a storage proof is offered again with an ID that no block of the chain has, chosen so that
+// it challenges the same leaf (so that nothing but ancestry is at stake).
+func (t *tester) v1WindowID(cs consensus.State, orig types.Block, bs consensus.V1BlockSupplement) {
+	for i := range bs.Transactions {
+		for j, sps := range bs.Transactions[i].StorageProofs {
+			fc := sps.FileContract
+			if i >= len(orig.Transactions) || j >= len(orig.Transactions[i].StorageProofs) {
+				continue
+			}
+			want := cs.StorageProofLeafIndex(fc.FileContract.Filesize, sps.WindowID, fc.ID)
+			var fake types.BlockID
+			found := false
+			for k := uint64(1); k < 4096 && !found; k++ {
+				fake = types.BlockID{0xFA, 0x4E}
+				binary.LittleEndian.PutUint64(fake[8:], k)
+				found = cs.StorageProofLeafIndex(fc.FileContract.Filesize, fake, fc.ID) == want
+			}
+			if !found {
+				continue
+			}
+			bs2 := bs
+			bs2.Transactions = append([]consensus.V1TransactionSupplement(nil), bs.Transactions...)
+			ts := bs2.Transactions[i]
+			ts.StorageProofs = append([]consensus.V1StorageProofSupplement(nil), ts.StorageProofs...)
+			ts.StorageProofs[j].WindowID = fake
+			bs2.Transactions[i] = ts
+			err := consensus.ValidateBlock(cs, orig, bs2)
+			t.b.Count("v1_window_ids_replaced_by_a_non_ancestor", 1)
+			t.expect("chainindex", "v1-supplement-window-id-of-no-block-of-the-chain", false, "ValidateBlock/supplement", err == nil)
+			return
+		}
+	}
+}
+
 // v1Fabrications: the same for v1 transactions, whose in-block parents are looked up by ID alone. A siacoin / siafund
 // input is appended whose ParentID no transaction created as an element of that kind: a random ID, and the ID of an
 // element of another kind sitting at the same position of the block's (v1) diff lists. The unlock conditions are
@@ -1169,6 +1206,7 @@ func run(b *harness.B) {
 			t.ephemeralFabrications(cs, orig, bs)
 			t.v1Fabrications(cs, orig)
 			t.v2ForgedParentAfterInBlockRevision(cs, orig)
+			t.v1WindowID(cs, orig, bs)
 		}
 		c.OnRevert = func(ev chaingen.RevertEvent) {
 			// before the store processes the revert: elements created by the block being reverted, with their proofs valid on that branch
